@@ -127,3 +127,154 @@ pub fn parse_str<'a>(v: &'a Value, key: &str) -> Result<&'a str, String> {
 pub fn parse_bytes(v: &Value, key: &str) -> Result<Vec<u8>, String> {
     parse_seq(v, key)
 }
+
+/// Every way of consuming an iterator has to give the items a plain `next()` loop gives.
+/// `make` builds a fresh iterator, `key` turns an item into something comparable.  Covers
+/// collect, fold, for_each, count, last, nth(k) (fresh and after j next() calls) followed by
+/// the rest, skip, step_by, take-then-rest through by_ref, peekable, find/position (try_fold),
+/// and size_hint at every position.  Returns the number of consumptions performed.
+pub fn consumption_modes<I, K, MF, KF>(what: &dyn Fn() -> String, make: MF, key: KF) -> Result<u64, String>
+where
+    I: Iterator,
+    K: PartialEq + std::fmt::Debug + Clone,
+    MF: Fn() -> I,
+    KF: Fn(I::Item) -> K,
+{
+    let mut want: Vec<K> = vec![];
+    {
+        let mut it = make();
+        let mut hints = vec![it.size_hint()];
+        while let Some(x) = it.next() {
+            want.push(key(x));
+            hints.push(it.size_hint());
+        }
+        // an exhausted iterator that is asked again may not produce items out of nowhere
+        for (pos, (lo, hi)) in hints.iter().enumerate() {
+            let left = want.len() - pos;
+            if *lo > left || hi.map_or(false, |h| h < left) {
+                return Err(format!(
+                    "{}: size_hint after {} next() calls is ({}, {:?}) but {} items remain",
+                    what(), pos, lo, hi, left
+                ));
+            }
+        }
+    }
+    let len = want.len();
+    let mut n = 1u64;
+    let diff = |mode: &dyn Fn() -> String, got: &[K], exp: &[K]| -> Result<(), String> {
+        if got != exp {
+            Err(format!("{}: {} yields {:?}, a next() loop yields {:?}", what(), mode(), got, exp))
+        } else {
+            Ok(())
+        }
+    };
+    let got: Vec<K> = make().map(&key).collect();
+    diff(&|| "collect()".into(), &got, &want)?;
+    let got = make().fold(Vec::new(), |mut v, x| {
+        v.push(key(x));
+        v
+    });
+    diff(&|| "fold()".into(), &got, &want)?;
+    let mut got = vec![];
+    make().for_each(|x| got.push(key(x)));
+    diff(&|| "for_each()".into(), &got, &want)?;
+    if make().count() != len {
+        return Err(format!("{}: count() is {}, a next() loop yields {} items", what(), make().count(), len));
+    }
+    let got = make().last().map(&key);
+    if got.as_ref() != want.last() {
+        return Err(format!("{}: last() gives {:?}, expected {:?}", what(), got, want.last()));
+    }
+    n += 5;
+    let lim = len.min(12);
+    for j in 0..=lim.min(3) {
+        for k in 0..=(lim + 1 - j.min(lim + 1)) {
+            let mut it = make();
+            for _ in 0..j {
+                it.next();
+            }
+            let got = it.nth(k).map(&key);
+            let exp = want.get(j + k);
+            if got.as_ref() != exp {
+                return Err(format!(
+                    "{}: nth({}) after {} next() calls gives {:?}, expected {:?}",
+                    what(), k, j, got, exp
+                ));
+            }
+            let rest: Vec<K> = it.map(&key).collect();
+            let exp_rest: &[K] = if j + k + 1 <= len { &want[j + k + 1..] } else { &[] };
+            diff(&|| format!("the rest after {} next() calls and nth({})", j, k), &rest, exp_rest)?;
+            n += 1;
+        }
+    }
+    for k in 0..=lim + 1 {
+        let got: Vec<K> = make().skip(k).map(&key).collect();
+        diff(&|| format!("skip({})", k), &got, &want[k.min(len)..])?;
+        let mut it = make();
+        let head: Vec<K> = it.by_ref().take(k).map(&key).collect();
+        diff(&|| format!("by_ref().take({})", k), &head, &want[..k.min(len)])?;
+        let tail: Vec<K> = it.map(&key).collect();
+        diff(&|| format!("the rest after by_ref().take({})", k), &tail, &want[k.min(len)..])?;
+        let mut it = make();
+        for _ in 0..k {
+            it.next();
+        }
+        let c = it.count();
+        if c != len - k.min(len) {
+            return Err(format!("{}: count() after {} next() calls is {}, expected {}", what(), k, c, len - k.min(len)));
+        }
+        let mut it = make();
+        for _ in 0..k {
+            it.next();
+        }
+        let l = it.last().map(&key);
+        let exp = if k < len { want.last() } else { None };
+        if l.as_ref() != exp {
+            return Err(format!("{}: last() after {} next() calls gives {:?}, expected {:?}", what(), k, l, exp));
+        }
+        n += 4;
+    }
+    for step in 1..=3usize {
+        let got: Vec<K> = make().step_by(step).map(&key).collect();
+        let exp: Vec<K> = want.iter().cloned().step_by(step).collect();
+        diff(&|| format!("step_by({})", step), &got, &exp)?;
+        let got: Vec<K> = make().skip(1).step_by(step).map(&key).collect();
+        let exp: Vec<K> = want.iter().cloned().skip(1).step_by(step).collect();
+        diff(&|| format!("skip(1).step_by({})", step), &got, &exp)?;
+        n += 2;
+    }
+    for k in 0..=lim.min(3) {
+        let mut pk = make().peekable();
+        for _ in 0..k {
+            pk.next();
+        }
+        let _ = pk.peek();
+        let got: Vec<K> = pk.map(&key).collect();
+        diff(&|| format!("peekable() after {} next() calls and a peek()", k), &got, &want[k.min(len)..])?;
+        n += 1;
+    }
+    // try_fold-based searches: position of the i-th item, then the rest
+    for i in 0..lim {
+        let mut it = make();
+        let mut seen = 0usize;
+        let found = it.find(|_| {
+            seen += 1;
+            seen == i + 1
+        });
+        if found.map(&key).as_ref() != want.get(i) {
+            return Err(format!("{}: find() stopping at item {} returns a different item", what(), i));
+        }
+        let rest: Vec<K> = it.map(&key).collect();
+        diff(&|| format!("the rest after find() stopped at item {}", i), &rest, &want[i + 1..])?;
+        n += 1;
+    }
+    let zipped: Vec<(K, K)> = make().zip(make().skip(1)).map(|(a, b)| (key(a), key(b))).collect();
+    let exp: Vec<(K, K)> = want.iter().cloned().zip(want.iter().cloned().skip(1)).collect();
+    if zipped != exp {
+        return Err(format!("{}: zip(self.skip(1)) yields {:?}, expected {:?}", what(), zipped, exp));
+    }
+    let chained: Vec<K> = make().chain(make()).map(&key).collect();
+    let exp: Vec<K> = want.iter().cloned().chain(want.iter().cloned()).collect();
+    diff(&|| "chain(self)".into(), &chained, &exp)?;
+    Ok(n + 2)
+}
